@@ -166,8 +166,11 @@ func (s *Service) Start(ctx context.Context) error {
 		go func() {
 			defer s.wg.Done()
 			defer close(mainSignal)
-			defer s.isRunning.Store(false)
+			// (deferred calls run last-in first-out: the running flag
+			// is cleared before the service reports itself finished,
+			// which is what lets Wait return.)
 			defer s.isFinished.Store(true)
+			defer s.isRunning.Store(false)
 			if s.Cleanup != nil {
 				cleanup := s.Cleanup
 				// this catches a panic during shutdown
